@@ -1034,40 +1034,208 @@ fn check_stored(q: &Generic, terms: &[Term]) -> Result<(), String> {
     Ok(())
 }
 
+/// one `make_*_interaction_and_offset` / `make_interaction` call as issued, with the outcome the DOCUMENTATION
+/// demands (`expect_ok`, decided when the call is generated) and the outcome observed
+#[derive(Clone, Debug)]
+struct CallRec {
+    kind: &'static str,
+    mat: Vec<f64>,
+    vars: Vec<usize>,
+    expect_ok: bool,
+    got_ok: bool,
+    why: &'static str,
+}
+
+fn show_calls(cs: &[CallRec]) -> String {
+    if cs.is_empty() {
+        "-".into()
+    } else {
+        cs.iter().map(|c| format!("{}:{}:{}", c.kind, rats(&c.mat), list(&c.vars))).collect::<Vec<_>>().join(";")
+    }
+}
+
+fn show_results(cs: &[CallRec]) -> String {
+    if cs.is_empty() {
+        "-".into()
+    } else {
+        cs.iter().map(|c| if c.got_ok { 'A' } else { 'E' }).collect()
+    }
+}
+
+/// the calls whose observed outcome is not the documented one
+fn call_mismatch(cs: &[CallRec]) -> Result<(), String> {
+    for (k, c) in cs.iter().enumerate() {
+        if c.expect_ok != c.got_ok {
+            return Err(format!(
+                "constructor call {} ({} on vars {:?}, {}): returned {} but the documented outcome is {}",
+                k,
+                c.kind,
+                c.vars,
+                c.why,
+                if c.got_ok { "Ok" } else { "Err" },
+                if c.expect_ok { "Ok" } else { "Err" }
+            ));
+        }
+    }
+    Ok(())
+}
+
+/// issue one constructor call on a real sampler and record it
+fn issue(q: &mut Generic, calls: &mut Vec<CallRec>, kind: &'static str, mat: Vec<f64>, vars: Vec<usize>, expect_ok: bool, why: &'static str) {
+    let r = match kind {
+        "new_off" => q.make_interaction_and_offset(mat.clone(), vars.clone()),
+        "diag_off" => q.make_diagonal_interaction_and_offset(mat.clone(), vars.clone()),
+        "new" => q.make_interaction(mat.clone(), vars.clone()),
+        _ => q.make_diagonal_interaction(mat.clone(), vars.clone()),
+    };
+    calls.push(CallRec { kind, mat, vars, expect_ok, got_ok: r.is_ok(), why });
+}
+
+/// `n` dyadic diagonal entries whose minimum is NOT zero (so a rejected call that left its shift behind is visible)
+fn nonzero_min_diag(g: &mut SplitMix64, n: usize) -> Vec<f64> {
+    let mut d: Vec<f64> = (0..n).map(|_| g.dyadic(-3, 3, 4)).collect();
+    if min_of(&d) == 0.0 {
+        let bump = *g.pick(&[0.75, -1.25, 2.5]);
+        d.iter_mut().for_each(|x| *x += bump);
+    }
+    d
+}
+
+/// A call the documentation REJECTS (`Err`, nothing registered, offset untouched), with a non-zero smallest diagonal
+/// entry. Reasons: a variable named twice, a negative off-diagonal weight (full matrix only), a variable index the
+/// sampler does not have, a matrix whose size does not fit the variable list, no variable at all, a size that is no
+/// power of four / two.
+fn gen_rejected(g: &mut SplitMix64, nvars: usize) -> (&'static str, Vec<f64>, Vec<usize>, &'static str) {
+    let full = g.chance(2, 3);
+    // a full matrix over k variables with the given diagonal and small non-negative off-diagonal weights
+    let full_mat = |g: &mut SplitMix64, k: usize| -> Vec<f64> {
+        let tn = 1usize << k;
+        let d = nonzero_min_diag(g, tn);
+        let mut m = vec![0.0; tn * tn];
+        for r in 0..tn {
+            for c in 0..tn {
+                m[r * tn + c] = if r == c { d[r] } else { g.range(0, 3) as f64 / 4.0 };
+            }
+        }
+        m
+    };
+    let v = g.range(0, nvars as i64 - 1) as usize;
+    let w = (v + 1 + g.range(0, nvars as i64 - 2) as usize) % nvars; // != v (nvars >= 2)
+    if full {
+        match g.range(0, 9) {
+            0 | 1 => ("new_off", full_mat(g, 2), vec![v, v], "variable named twice"),
+            2 | 3 => {
+                let k = if g.coin() { 1 } else { 2 };
+                let mut m = full_mat(g, k);
+                let tn = 1usize << k;
+                let (r, c) = (g.range(0, tn as i64 - 1) as usize, g.range(0, tn as i64 - 2) as usize);
+                let c = if c >= r { c + 1 } else { c };
+                m[r * tn + c] = -(g.range(1, 6) as f64) / 4.0;
+                ("new_off", m, if k == 1 { vec![v] } else { vec![v, w] }, "negative off-diagonal weight")
+            }
+            4 | 5 => {
+                let far = nvars + g.range(0, 2) as usize;
+                if g.coin() {
+                    ("new_off", full_mat(g, 1), vec![far], "variable index >= nvars")
+                } else {
+                    let vs = if g.coin() { vec![v, far] } else { vec![far, v] };
+                    ("new_off", full_mat(g, 2), vs, "variable index >= nvars")
+                }
+            }
+            6 | 7 => match g.range(0, 2) {
+                0 => ("new_off", full_mat(g, 2), vec![v], "16 entries for one variable"),
+                1 => ("new_off", full_mat(g, 1), vec![v, w], "4 entries for two variables"),
+                _ => ("new_off", full_mat(g, 2), vec![0, 1, nvars.min(2)], "16 entries for three variables"),
+            },
+            8 => ("new_off", nonzero_min_diag(g, 1), vec![], "no variable"),
+            _ => {
+                let mut m = full_mat(g, 2);
+                m.truncate(8);
+                ("new_off", m, vec![v, w], "8 entries: no power of four")
+            }
+        }
+    } else {
+        match g.range(0, 7) {
+            0 | 1 => ("diag_off", nonzero_min_diag(g, 4), vec![v, v], "variable named twice"),
+            2 | 3 => {
+                let far = nvars + g.range(0, 2) as usize;
+                if g.coin() {
+                    ("diag_off", nonzero_min_diag(g, 2), vec![far], "variable index >= nvars")
+                } else {
+                    ("diag_off", nonzero_min_diag(g, 4), vec![v, far], "variable index >= nvars")
+                }
+            }
+            4 | 5 => {
+                if g.coin() {
+                    ("diag_off", nonzero_min_diag(g, 4), vec![v], "4 entries for one variable")
+                } else {
+                    ("diag_off", nonzero_min_diag(g, 2), vec![v, w], "2 entries for two variables")
+                }
+            }
+            6 => ("diag_off", nonzero_min_diag(g, 1), vec![], "no variable"),
+            _ => ("diag_off", nonzero_min_diag(g, 3), vec![v, w], "3 entries: no power of two"),
+        }
+    }
+}
+
+/// issue one rejected call (see `gen_rejected`) on `q`
+fn issue_rejected(g: &mut SplitMix64, q: &mut Generic, calls: &mut Vec<CallRec>, nvars: usize) {
+    let (kind, mat, vars, why) = gen_rejected(g, nvars);
+    stat(&format!("generic_rejected_call[{}:{}]", kind, why.replace(' ', "_")), 1);
+    issue(q, calls, kind, mat, vars, false, why);
+}
+
 /// A generic sampler on a chain: per edge a diagonal interaction `[c-j, c+j, c+j, c-j]` registered with
 /// `make_diagonal_interaction_and_offset` (or the full-matrix variant), so the documented offset is
 /// `-Σ(c-|j|)`: negative for `c > |j|` (all diagonal entries strictly positive), positive for `c < |j|`; sometimes a
 /// single-site `[a, 0, 0, b]` with offset; plus a constant single-site term (no offset).
 /// `shift` moves every diagonal, which changes the offset but not the stored (shifted) matrices.
-fn gen_generic(g: &mut SplitMix64, nvars: usize, shift: f64, seed: u64) -> (Generic, Vec<Term>) {
+/// With `rejects`, calls the documentation rejects (non-zero smallest diagonal entry, every rejection reason) are
+/// interleaved with the accepted ones — before the first, between them, after the last. `terms` holds the ACCEPTED
+/// calls only; `calls` every call in the order issued.
+fn gen_generic(g: &mut SplitMix64, nvars: usize, shift: f64, seed: u64, rejects: bool) -> (Generic, Vec<Term>, Vec<CallRec>) {
     let mut q = Generic::new_with_state(nvars, SplitMix64::new(seed), vec![false; nvars], false);
     let mut terms = vec![];
+    let mut calls = vec![];
     for v in 0..nvars - 1 {
+        if rejects && g.chance(2, 3) {
+            issue_rejected(g, &mut q, &mut calls, nvars);
+        }
         let j = *g.pick(&[-1.0, -0.5, 0.5, 1.0, 1.5]);
         let c = g.dyadic(-3, 3, 4);
         let (lo, hi) = (c + shift - j, c + shift + j);
         if v % 2 == 0 {
-            q.make_diagonal_interaction_and_offset(vec![lo, hi, hi, lo], vec![v, v + 1]).unwrap();
+            issue(&mut q, &mut calls, "diag_off", vec![lo, hi, hi, lo], vec![v, v + 1], true, "chain edge");
         } else {
             let mut m = vec![0.0; 16];
             for (i, d) in [lo, hi, hi, lo].iter().enumerate() {
                 m[5 * i] = *d;
             }
-            q.make_interaction_and_offset(m, vec![v, v + 1]).unwrap();
+            issue(&mut q, &mut calls, "new_off", m, vec![v, v + 1], true, "chain edge");
         }
         terms.push(Term { vars: vec![v, v + 1], diag: vec![lo, hi, hi, lo], with_offset: true });
     }
     if g.coin() {
         let (a, b) = (g.range(1, 8) as f64 / 4.0 + shift, g.range(1, 8) as f64 / 4.0 + shift);
-        q.make_interaction_and_offset(vec![a, 0.0, 0.0, b], vec![0]).unwrap();
+        issue(&mut q, &mut calls, "new_off", vec![a, 0.0, 0.0, b], vec![0], true, "single-site diagonal");
         terms.push(Term { vars: vec![0], diag: vec![a, b], with_offset: true });
+    }
+    if rejects && g.coin() {
+        issue_rejected(g, &mut q, &mut calls, nvars);
     }
     let tr = g.range(1, 6) as f64 / 4.0;
     for v in 0..nvars {
-        q.make_interaction(vec![tr, tr, tr, tr], vec![v]).unwrap();
+        issue(&mut q, &mut calls, "new", vec![tr, tr, tr, tr], vec![v], true, "constant single-site term");
         terms.push(Term { vars: vec![v], diag: vec![tr, tr], with_offset: false });
     }
-    (q, terms)
+    if rejects && g.chance(2, 3) {
+        issue_rejected(g, &mut q, &mut calls, nvars);
+    }
+    (q, terms, calls)
+}
+
+fn close12(a: f64, b: f64) -> bool {
+    (a - b).abs() <= 1e-12 * 1f64.max(a.abs()).max(b.abs())
 }
 
 /// manual loop on a clone: n after every step, state after every step
@@ -1087,32 +1255,55 @@ fn mode_generic(a: &Args) {
     let g = &mut gen;
     let cases = if a.thorough { 240 } else { 36 };
     let (mut npos, mut nneg) = (0, 0);
-    // (a) timesteps / timesteps_sample / timesteps_measure on a generic sampler with an offset
+    let mut reused = 0usize;
+    // (a) timesteps / timesteps_sample / timesteps_measure on a generic sampler with an offset, built through a mix of
+    // accepted and REJECTED constructor calls (three quarters of the samplers), a rejected call also after the warm-up
     for ci in 0..cases {
         let label = format!("genericm case {} {}", a.seed, ci);
         let res = catch(|| {
             let beta = *g.pick(&[0.5, 1.0, 2.0, 4.0]);
             let t = g.range(1, 60) as usize;
             let f = g.range(1, 9) as usize;
-            // `off`: the DOCUMENTED offset, computed from what the harness registered, never from get_offset()
-            let (mut q0, off, stored): (Generic, f64, Result<(), String>) = if ci % 3 == 2 {
+            let rejects = g.chance(3, 4);
+            // `off`: the DOCUMENTED offset, computed from the matrices of the ACCEPTED calls, never from get_offset();
+            // `base`: the documented offset before the recorded calls (conversion), `nbase` the bonds it registered
+            let (mut q0, off, stored, mut calls, nvars, base, nbonds): (Generic, f64, Result<(), String>, Vec<CallRec>, usize, f64, usize) = if ci % 3 == 2 {
                 // obtained by conversion from an Ising sampler (with and without a longitudinal field, both signs):
                 // into_qmc registers [-J, J, J, -J] per edge and [-h, 0, 0, h] per site with offset => sum|J| + N|h|
                 let nvars = g.range(2, 5) as usize;
                 let (edges, tr, cutoff) = gen_ising(g, nvars);
                 let h: f64 = if ci % 2 == 0 { 0.0 } else { *g.pick(&[-0.75, 0.5, 1.25, -0.25]) };
                 let off = edges.iter().map(|(_, j)| j.abs()).sum::<f64>() + nvars as f64 * h.abs();
-                (Ising::new_with_rng(edges, tr, h, cutoff, SplitMix64::new(g.next()), None).into_qmc(), off, Ok(()))
+                let mut q = Ising::new_with_rng(edges, tr, h, cutoff, SplitMix64::new(g.next()), None).into_qmc();
+                let nb = q.get_bonds().len();
+                // the converted sampler is reused: calls the documentation rejects must leave no trace
+                let mut calls = vec![];
+                if rejects {
+                    for _ in 0..g.range(1, 3) {
+                        issue_rejected(g, &mut q, &mut calls, nvars);
+                    }
+                }
+                (q, off, Ok(()), calls, nvars, off, nb)
             } else {
                 let nvars = g.range(2, 5) as usize;
                 // force the sign of the offset in turn
                 let shift = if ci % 2 == 0 { 3.0 } else { -3.0 };
                 let seed = g.next();
-                let (q, terms) = gen_generic(g, nvars, shift, seed);
+                let (q, terms, calls) = gen_generic(g, nvars, shift, seed, rejects);
                 let st = check_stored(&q, &terms);
-                (q, doc_generic_offset(&terms), st)
+                let nb = terms.len();
+                (q, doc_generic_offset(&terms), st, calls, nvars, 0.0, nb)
             };
             q0.timesteps(g.range(0, 15) as usize, beta);
+            // reused after it has been sampled: one more rejected call
+            if rejects && g.coin() {
+                issue_rejected(g, &mut q0, &mut calls, nvars);
+            }
+            let nrej = calls.iter().filter(|c| !c.expect_ok).count();
+            if nrej > 0 {
+                reused += 1;
+            }
+            stat("generic_rejected_calls_before_measuring", nrej);
             let got_off = q0.get_offset();
             let (ns, states) = single_steps(&mut q0.clone(), t, beta);
             let doc = |freq: usize| -> Option<f64> {
@@ -1142,22 +1333,50 @@ fn mode_generic(a: &Args) {
                 if !states_ok {
                     oracle = Err(format!("generic sampler ({}): sampled states are not those after steps f,2f,..", variant));
                 }
+                if got_off != off {
+                    oracle = Err(format!(
+                        "generic sampler: get_offset() = {} but the accepted interactions give {} ({} rejected calls on this sampler)",
+                        got_off, off, nrej
+                    ));
+                }
                 if let Some(d) = doc(freq) {
-                    if !close(e, d) {
+                    // same f64 expression as the library's on the harness' own tally of n: 1e-12 relative
+                    if !close12(e, d) {
                         oracle = Err(format!(
-                            "generic sampler ({}), documented offset {} (get_offset() says {}): returned energy {} but -<n>/beta + offset over the sampled steps is {}",
-                            variant, off, got_off, e, d
+                            "generic sampler ({}), documented offset {} = -(sum of the smallest diagonal entries of the ACCEPTED calls) (get_offset() says {}; {} rejected calls): returned energy {} but -<n>/beta + offset over the sampled steps is {}",
+                            variant, off, got_off, nrej, e, d
                         ));
                     }
                 }
-                if !close(got_off, off) {
-                    oracle = Err(format!("generic sampler: get_offset() = {} but the registered interactions give {}", got_off, off));
+                if q0.get_bonds().len() != nbonds {
+                    oracle = Err(format!("generic sampler: {} interactions stored, {} accepted", q0.get_bonds().len(), nbonds));
+                }
+                if let Err(m) = call_mismatch(&calls) {
+                    oracle = Err(format!("generic sampler: {}", m));
                 }
                 if let Err(m) = &stored {
                     oracle = Err(format!("generic sampler: {}", m));
                 }
-                let input = format!("genericm {} {} {} {} {} {}", variant, t, freq, rat(beta), rat(off), list(&ns));
-                emit(t / freq >= 1 && off != 0.0, &input, &format!("{} {}", count, fl(e)), Some(oracle));
+                // model: energy from the documented offset (input token); get_offset() and the outcome of every call
+                // reproduced from the calls (QmcModel/QmcCtor.lean) starting at the documented base offset
+                let input = format!(
+                    "genericm {} {} {} {} {} {} {} {} {}",
+                    variant,
+                    t,
+                    freq,
+                    rat(beta),
+                    rat(off),
+                    list(&ns),
+                    nvars,
+                    rat(base),
+                    show_calls(&calls)
+                );
+                emit(
+                    t / freq >= 1 && off != 0.0,
+                    &input,
+                    &format!("{} {} {} {}", count, fl(e), rat(got_off), show_results(&calls)),
+                    Some(oracle),
+                );
             }
             off
         });
@@ -1172,6 +1391,7 @@ fn mode_generic(a: &Args) {
             Err(p) => emit(false, &label, "panic", Some(Err(format!("generic sampler scenario panicked: {}", p)))),
         }
     }
+    stat("generic_samplers_reused_after_a_rejected_call", reused);
     // (b) the tempering drivers over generic replicas whose offsets differ from slot to slot
     let tcases = if a.thorough { 120 } else { 24 };
     for ci in 0..tcases {
@@ -1183,25 +1403,32 @@ fn mode_generic(a: &Args) {
         let s = g.range(1, 7) as usize;
         let f = g.range(1, 7) as usize;
         let parallel = ci % 2 == 1;
+        let rejects = ci % 4 != 3;
         let mut tc: TemperingContainer<SplitMix64, Generic> = TemperingContainer::new(SplitMix64::new(g.next()));
         // same couplings in every replica (same generator state), different diagonal shift => different offset,
-        // identical stored matrices (so the graphs are swappable and `ham_eq` holds)
+        // identical stored matrices (so the graphs are swappable and `ham_eq` holds); the rejected calls of a replica
+        // register nothing
         let gs = g.clone();
         let mut betas = vec![];
-        // documented offsets (from the registered matrices) and get_offset() as captured at construction
+        // documented offsets (from the ACCEPTED matrices) and get_offset() as captured at construction
         let mut offs0: Vec<f64> = vec![];
         let mut caps: Vec<f64> = vec![];
+        let mut callss: Vec<Vec<CallRec>> = vec![];
         let mut setup: Result<(), String> = Ok(());
         for i in 0..nrep {
             let mut gi = gs.clone();
             let shift = [3.0, -3.0, 0.5, -1.25][(i + ci) % 4];
-            let (q, terms) = gen_generic(&mut gi, nvars, shift, g.next());
+            let (q, terms, calls) = gen_generic(&mut gi, nvars, shift, g.next(), rejects);
             let beta = [0.5, 1.0, 2.0, 4.0][i % 4];
             offs0.push(doc_generic_offset(&terms));
             caps.push(q.get_offset());
             if let Err(m) = check_stored(&q, &terms) {
                 setup = Err(format!("slot {}: {}", i, m));
             }
+            if let Err(m) = call_mismatch(&calls) {
+                setup = Err(format!("slot {}: {}", i, m));
+            }
+            callss.push(calls);
             if let Err(m) = tc.add_qmc_stepper(q, beta) {
                 // identical couplings, only the diagonal shift differs: the documented stored matrices are equal
                 return Err(format!(
@@ -1213,6 +1440,16 @@ fn mode_generic(a: &Args) {
             betas.push(beta);
         }
         tc.timesteps(g.range(0, 8) as usize);
+        // one replica is reused after the warm-up: a rejected call on the sampler inside the container
+        if rejects && g.coin() {
+            let i = ci % nrep;
+            let before = callss[i].len();
+            issue_rejected(g, &mut tc.graph_mut()[i].0, &mut callss[i], nvars);
+            if let Err(m) = call_mismatch(&callss[i][before..]) {
+                setup = Err(format!("slot {} (after the warm-up): {}", i, m));
+            }
+        }
+        stat("generic_tempering_rejected_calls", callss.iter().map(|c| c.iter().filter(|x| !x.expect_ok).count()).sum::<usize>());
         let mut tc2 = tc.clone();
         let r = if parallel { tc.parallel_timesteps_sample(t, s, f) } else { tc.timesteps_sample(t, s, f) };
         // the slots' documented offsets
@@ -1244,8 +1481,8 @@ fn mode_generic(a: &Args) {
             let doc = nseq[i].iter().map(|n| -(*n as f64 / betas[i]) + offs[i]).sum::<f64>() / t as f64;
             if !close(r[i].1, doc) {
                 oracle = Err(format!(
-                    "generic replicas: slot {} (documented offset {}) energy {} but the per-step average of -n/beta + offset is {}",
-                    i, offs[i], r[i].1, doc
+                    "generic replicas: slot {} (documented offset {} from the accepted calls, get_offset() says {}) energy {} but the per-step average of -n/beta + offset is {}",
+                    i, offs[i], tc.graph_ref()[i].0.get_offset(), r[i].1, doc
                 ));
             }
             for (which, c) in [("after the run", &tc), ("in the reference loop", &tc2)] {
@@ -1254,24 +1491,32 @@ fn mode_generic(a: &Args) {
                     oracle = Err(format!("generic replicas: slot {}: get_offset() is {} {} but was {} at construction", i, o, which, caps[i]));
                 }
             }
-            if !close(caps[i], offs[i]) {
-                oracle = Err(format!("generic replicas: slot {}: get_offset() = {} but the registered interactions give {}", i, caps[i], offs[i]));
+            if caps[i] != offs[i] {
+                oracle = Err(format!("generic replicas: slot {}: get_offset() = {} but the accepted interactions give {}", i, caps[i], offs[i]));
             }
         }
         if let Err(m) = &setup {
             oracle = Err(format!("generic replicas: {}", m));
         }
         let input = format!(
-            "generict {} {} {} {} {} {} {}",
+            "generict {} {} {} {} {} {} {} {} {}",
             t,
             s,
             f,
             nrep,
             rats(&betas),
             rats(&offs),
-            nseq.iter().map(|v| list(v).replace(',', ".")).collect::<Vec<_>>().join(",")
+            nseq.iter().map(|v| list(v).replace(',', ".")).collect::<Vec<_>>().join(","),
+            nvars,
+            callss.iter().map(|c| show_calls(c)).collect::<Vec<_>>().join("&")
         );
-        let out = r.iter().map(|x| format!("{} {}", x.0.len(), fl(x.1))).collect::<Vec<_>>().join(" ");
+        let got_offs: Vec<f64> = (0..nrep).map(|i| tc.graph_ref()[i].0.get_offset()).collect();
+        let out = format!(
+            "{} {} {}",
+            r.iter().map(|x| format!("{} {}", x.0.len(), fl(x.1))).collect::<Vec<_>>().join(" "),
+            rats(&got_offs),
+            callss.iter().map(|c| show_results(c)).collect::<Vec<_>>().join("&")
+        );
         emit(true, &input, &out, Some(oracle));
         stat("generic_swaps_accepted", tc.get_total_swaps());
         Ok(())
